@@ -33,8 +33,8 @@ import (
 	"k8s.io/apimachinery/pkg/runtime/schema"
 	clientsetfake "k8s.io/client-go/kubernetes/fake"
 	clienttesting "k8s.io/client-go/testing"
+	"k8s.io/client-go/tools/record"
 
-	"github.com/koordinator-sh/koordinator/pkg/koordlet/util/testutil"
 	kit "github.com/koordinator-sh/koordinator/pkg/verifkit"
 )
 
@@ -76,7 +76,7 @@ func (e *c11RealExec) IsPodEvicted(pod *corev1.Pod) bool {
 }
 
 func TestVerifC11RealEvictor(t *testing.T) {
-	kit.Run(t, kit.Config{Property: "C11", Unit: "util-real-evictor", Quick: 6000, Thorough: 120000,
+	kit.Run(t, kit.Config{Property: "C11", Unit: "util-real-evictor", Quick: 12000, Thorough: 200000,
 		Rule: "scenario as in util-tasks (2-10 pods, 1-3 tasks) but the executor is the production DefaultEvictionExecutor over the real Evictor and a fake clientset; 2-3 rounds over the same pods/tasks/Evictor; every eviction request is answered by a per-(round,pod) script: success / 429 / NotFound / generic error with a per-case failure rate of 0, 25, 50 or 85%; ground truth = the reactor's record; distinct = (plugin, features, rounds, failure rate, api requests class, failed-then-reconsidered, evicted-earlier-seen); non-trivial = a pod whose request failed is looked at again later, or a pod evicted in an earlier round is met again"},
 		func(c *kit.Case) {
 			r := c.R
@@ -127,7 +127,7 @@ func TestVerifC11RealEvictor(t *testing.T) {
 				}
 				return true, ev, nil
 			})
-			evictor := NewEvictor(client, &testutil.FakeRecorder{}, policyv1.SchemeGroupVersion.Version)
+			evictor := NewEvictor(client, &record.FakeRecorder{}, policyv1.SchemeGroupVersion.Version)
 			stop := make(chan struct{})
 			defer close(stop)
 			if err := evictor.Start(stop); err != nil {
